@@ -899,7 +899,7 @@ impl<'a> B<'a> {
 
     fn failing_action(&mut self, g: &mut Gen) -> &'static str {
         for _ in 0..8 {
-            let kind = g.weighted(&[6, 4, 4, 4, 3, 5, 5, 2, 3, 3, 3, 3, 3, 3, 3]);
+            let kind = g.weighted(&[6, 4, 4, 4, 3, 8, 10, 2, 3, 3, 3, 3, 3, 3, 3]);
             match kind {
                 0 => {
                     // withdraw more than the balance
